@@ -27,6 +27,18 @@ def _eq(a, b):
     return all_([s_eq(x, y) for x, y in zip(a.reshape(-1), b.reshape(-1))])
 
 
+def _row(src, i):
+    """src[i] for a possibly symbolic index i"""
+    from symtorch.scalar import is_sym, s_where
+
+    if not is_sym(i):
+        return src.a[int(i)]
+    out = src.a[0]
+    for k in range(1, src.a.shape[0]):
+        out = np.vectorize(lambda a, b, _k=k: s_where(i == _k, b, a), otypes=[object])(out, src.a[k]) if isinstance(out, np.ndarray) else s_where(i == k, src.a[k], out)
+    return out
+
+
 def dataset_job(job_id, cls_name, N=3, extra=False, source_filter=None):
     E = explore.EXP
     ctx = core.Ctx(job_id)
@@ -37,8 +49,14 @@ def dataset_job(job_id, cls_name, N=3, extra=False, source_filter=None):
     ctx.stubs.add("torch.utils.data.DataLoader contract: batches of batch_size consecutive indices of the (possibly permuted) index order, __getitems__ if present, then collate_fn")
 
     def cexb(E_, neg):
-        return [{"kind": "script", "path": core.ROOT + "/vf/torch_side", "module": "data_side", "func": "run_dataset", "model_kind": "plain", "mode": "C17",
-                 "params": dict(cur)}]
+        from symtorch.scalar import is_sym
+
+        if E_.check(neg) != z3.sat:
+            return []
+        m = E_.model()
+        prm = dict(cur)
+        prm["perm"] = [int(str(core.model_value(m, x))) if is_sym(x) else int(x) for x in cur["perm"]]
+        return [{"kind": "script", "path": core.ROOT + "/vf/torch_side", "module": "data_side", "func": "run_dataset", "model_kind": "plain", "mode": "C17", "params": prm}]
 
     cur = {}
 
@@ -48,10 +66,16 @@ def dataset_job(job_id, cls_name, N=3, extra=False, source_filter=None):
         flag = T.sym_tensor("flag", (N,), T.bool_)
         td = TensorDict({"locs": locs, "demand": dem, "flag": flag}, batch_size=[N])
         ex = T.sym_tensor("extra", (N,), T.float32)
-        perms = [list(range(N))] + ([list(p) for p in itertools.permutations(range(N))][1:] if N <= 3 else [list(range(1, N)) + [0], list(range(N))[::-1]])
+        # shuffled order: ONE symbolic permutation (distinct solver integers) stands for every order a sampler can produce
+        symperm = [z3.Int(f"perm_{i}") for i in range(N)]
+        for x in symperm:
+            E.assume(z3.And(x >= 0, x < N))
+        if N > 1:
+            E.assume(z3.Distinct(*symperm))
+        perms = [list(range(N)), symperm]
         for bs in range(1, N + 2):
             for perm in perms:
-                shuffle = perm != list(range(N))
+                shuffle = perm is symperm
                 cur.clear()
                 cur.update(cls=cls_name, N=N, bs=bs, perm=perm, extra=extra)
                 dataset = getattr(ds, cls_name)(td.clone())
@@ -61,7 +85,7 @@ def dataset_job(job_id, cls_name, N=3, extra=False, source_filter=None):
                 module = types.SimpleNamespace(dataloader_num_workers=0)
                 dl = base.RL4COLitModule._dataloader_single(module, dataset, bs, shuffle)
                 batches = list(dl)
-                nm = f"{cls_name} N={N} bs={bs} perm={perm} extra={extra}"
+                nm = f"{cls_name} N={N} bs={bs} order={'any permutation' if shuffle else 'sequential'} extra={extra}"
                 exp_sizes = [min(bs, N - s) for s in range(0, N, bs)]
                 sizes = [b.batch_size[0] for b in batches]
                 ctx.prove(E, f"[{nm}] batches have the expected sizes incl. the final partial batch", sizes == exp_sizes, cexb)
@@ -75,11 +99,11 @@ def dataset_job(job_id, cls_name, N=3, extra=False, source_filter=None):
                         for key, src in (("locs", locs), ("demand", dem), ("flag", flag)):
                             ok_meta = ok_meta and key in b.keys() and b[key].dtype is src.dtype and tuple(b[key].shape[1:]) == tuple(src.shape[1:])
                             if key in b.keys():
-                                ok_vals = s_and(ok_vals, _eq(b[key].a[r], src.a[i]))
+                                ok_vals = s_and(ok_vals, _eq(b[key].a[r], _row(src, i)))
                         if extra:
                             ok_meta = ok_meta and "extra" in b.keys()
                             if "extra" in b.keys():
-                                ok_vals = s_and(ok_vals, _eq(b["extra"].a[r], ex.a[i]))
+                                ok_vals = s_and(ok_vals, _eq(b["extra"].a[r], _row(ex, i)))
                         pos += 1
                 ctx.prove(E, f"[{nm}] every key keeps its dtype and per-item shape", ok_meta, cexb)
                 ctx.prove(E, f"[{nm}] reading back yields exactly the original instances in loader order (extra value travels with its instance)", ok_vals, cexb)
@@ -107,8 +131,9 @@ def rollout_job(job_id, N=3, eval_bs=2, source_filter=None):
     ds = w.load("rl4co.data.dataset")
     bl = w.load("rl4co.models.rl.reinforce.baselines")
     ctx.bounds = {"N": N, "baseline_eval_batch_size": eval_bs, "train_batch_size": 2}
-    ctx.stubs.add("baseline policy: reward is an uninterpreted function of the instance it is shown; env.reset is the identity")
+    ctx.stubs.add("baseline policy: in inference mode its reward is an uninterpreted function of the instance it is shown; in training mode a different function that also depends on the batch-mates (batch norm / dropout); env.reset is the identity")
     R = z3.Function("baseline_reward", z3.RealSort(), z3.RealSort())
+    Rt = z3.Function("baseline_reward_train_mode", z3.RealSort(), z3.RealSort(), z3.RealSort())
 
     def cexb(E_, neg):
         return [{"kind": "script", "path": core.ROOT + "/vf/torch_side", "module": "data_side", "func": "run_rollout", "model_kind": "plain", "mode": "C17", "params": {"N": N, "eval_bs": eval_bs}}]
@@ -120,11 +145,23 @@ def rollout_job(job_id, N=3, eval_bs=2, source_filter=None):
         class Pol(nnmod.Module):
             def forward(self, batch, env=None, decode_type=None, **k):
                 Bc = batch.batch_size[0]
+                if self.training:
+                    # training mode (batch norm statistics, dropout): what a row gets depends on its batch-mates
+                    mix = 0
+                    for r in range(Bc):
+                        mix = mix + T._real(batch["locs"].a[r, 0, 0])
+                    return {"reward": T.Tensor(np.array([Rt(T._real(batch["locs"].a[r, 0, 0]), mix) for r in range(Bc)], dtype=object), T.float32)}
                 return {"reward": T.Tensor(np.array([R(T._real(batch["locs"].a[r, 0, 0])) for r in range(Bc)], dtype=object), T.float32)}
 
-        env = types.SimpleNamespace(reset=lambda b: b, name="tsp")
+        env = types.SimpleNamespace(reset=lambda b: b, name="tsp", dataset=lambda batch_size=None, **k: ds.TensorDictDataset(td.clone()))
         rb = bl.RolloutBaseline()
-        rb.policy = Pol()
+        actor = Pol()
+        actor.train()
+        rb.setup(actor, env, batch_size=eval_bs, device="cpu", dataset_size=N)  # deep copy of the actor + evaluation on the baseline's own dataset
+        E.obligations = []
+        ctx.prove(E, f"[setup eval_bs={eval_bs}] the stored baseline values are the copied policy's inference-mode rewards on the evaluation instances",
+                  all_([s_eq(rb.bl_vals[i], R(T._real(locs.a[i, 0, 0]))) for i in range(N)]) if len(rb.bl_vals) == N else False, cexb)
+        rb.train()  # what the trainer does at the start of every epoch: the whole module tree, baseline policy included, goes to train mode
         for cls_name in ("TensorDictDataset", "FastTdDataset", "TensorDictDatasetFastGeneration"):
             dataset = getattr(ds, cls_name)(td.clone())
             wrapped = rb.wrap_dataset(dataset, env, batch_size=eval_bs, device="cpu")
